@@ -53,8 +53,13 @@ At(pt) == { c \in Classes : OK(pt, c) } \cup SpecialOf(pt)
 
 (* dep: both messages are specific to the point - they meet in the same piece of state of H (the hub's matching of
    proposals, H's pending proposal, the sub-channel): these pairs are always run, the others are sampled *)
-Emit(pt, s) == PrintT(ToJson([point |-> pt, seq |-> s, dep |-> (Len(s) = 2 /\ s[1] \in SpecialOf(pt) /\ s[2] \in SpecialOf(pt))]))
-Singles == \A pt \in Points : \A c \in At(pt) : Emit(pt, <<c>>)
+(* net: the state of the network towards the adversary's addresses (P, X) while H handles the sequence - "ok"; "down":   *)
+(* whatever H sends them fails at once; "stall": it stays in Publish until the context H passed ends (the remote party *)
+(* has stopped reading).  The network is back before the honest probes.                                               *)
+EmitN(pt, s, net) == PrintT(ToJson([point |-> pt, seq |-> s, net |-> net,
+                                    dep |-> (Len(s) = 2 /\ s[1] \in SpecialOf(pt) /\ s[2] \in SpecialOf(pt))]))
+Emit(pt, s) == EmitN(pt, s, "ok")
+Singles == \A pt \in Points : \A c \in At(pt) : Emit(pt, <<c>>) /\ EmitN(pt, <<c>>, "down") /\ EmitN(pt, <<c>>, "stall")
 (* pairs: everything at the four basic points; at the three deeper points every pair with a point-specific class *)
 Pairs == \A pt \in Points : \A c \in At(pt) : \A d \in At(pt) :
             (SpecialOf(pt) = {} \/ c \in SpecialOf(pt) \/ d \in SpecialOf(pt)) => Emit(pt, <<c, d>>)
